@@ -24,7 +24,6 @@
 -/
 import NutsProofs.Lemmas.Conc
 import NutsGen.Facts
-import NutsProofs.Facts
 import NutsProofs.Pins.Locks
 namespace NutsProofs.C14
 open Nuts.Model.Conc NutsProofs.Conc
